@@ -194,6 +194,51 @@ def JVal.isContainer : JVal → Bool
   | .arr0 _ | .arr .. | .obj0 _ | .obj .. => true
   | _ => false
 
+/-! ### sub-values of a document, with the token context they occur in -/
+
+/-- An occurrence: tokens before, the sub-value, tokens after. -/
+abbrev Occ := List Tok × JVal × List Tok
+
+/-- Put an occurrence found inside a part of a value into the context of that part. -/
+def Occ.wrap (pre post : List Tok) (o : Occ) : Occ := (pre ++ o.1, o.2.1, o.2.2 ++ post)
+
+mutual
+  /-- Every sub-value of `v` (including `v` itself) with its context inside `v.toks`. -/
+  def JVal.occs : JVal → List Occ
+    | .lit l => [([], .lit l, [])]
+    | .num n => [([], .num n, [])]
+    | .str b => [([], .str b, [])]
+    | .arr0 ws => [([], .arr0 ws, [])]
+    | .obj0 ws => [([], .obj0 ws, [])]
+    | .arr ws0 v ws1 rest =>
+      ([], .arr ws0 v ws1 rest, []) ::
+        (v.occs.map (Occ.wrap (.lbracket :: wsToks ws0) (wsToks ws1 ++ rest.toks ++ [.rbracket])) ++
+         rest.occs.map (Occ.wrap (.lbracket :: (wsToks ws0 ++ v.toks ++ wsToks ws1)) [.rbracket]))
+    | .obj ws0 k ws1 ws2 v ws3 rest =>
+      ([], .obj ws0 k ws1 ws2 v ws3 rest, []) ::
+        (v.occs.map (Occ.wrap (.lbrace :: (wsToks ws0 ++ [.str k] ++ wsToks ws1 ++ [.colon] ++ wsToks ws2))
+            (wsToks ws3 ++ rest.toks ++ [.rbrace])) ++
+         rest.occs.map (Occ.wrap
+            (.lbrace :: (wsToks ws0 ++ [.str k] ++ wsToks ws1 ++ [.colon] ++ wsToks ws2 ++ v.toks ++ wsToks ws3))
+            [.rbrace]))
+  def JItems.occs : JItems → List Occ
+    | .nil => []
+    | .cons ws0 v ws1 rest =>
+      v.occs.map (Occ.wrap (.comma :: wsToks ws0) (wsToks ws1 ++ rest.toks)) ++
+      rest.occs.map (Occ.wrap (.comma :: (wsToks ws0 ++ v.toks ++ wsToks ws1)) [])
+  def JMembers.occs : JMembers → List Occ
+    | .nil => []
+    | .cons ws0 k ws1 ws2 v ws3 rest =>
+      v.occs.map (Occ.wrap (.comma :: (wsToks ws0 ++ [.str k] ++ wsToks ws1 ++ [.colon] ++ wsToks ws2))
+          (wsToks ws3 ++ rest.toks)) ++
+      rest.occs.map (Occ.wrap
+          (.comma :: (wsToks ws0 ++ [.str k] ++ wsToks ws1 ++ [.colon] ++ wsToks ws2 ++ v.toks ++ wsToks ws3)) [])
+end
+
+/-- Every value of the document (the root and all nested values; object keys are not values) with
+its token context inside `d.toks`. -/
+def Doc.occs (d : Doc) : List Occ := d.value.occs.map (Occ.wrap (wsToks d.ws0) (wsToks d.ws1))
+
 /-- Positions (indices into a Boolean list) of the `true` entries, in increasing order. -/
 def truePositions : List Bool → List Nat
   | [] => []
